@@ -513,7 +513,7 @@ def run_impl(ctx, meta, ops, tag="s"):
                         "op": idx, "what": "a store that was just opened has no own identity key pair / registration id"}))
                     break
                 try:
-                    margs = init_arg_values(meta, st.getLocalRegistrationId(), kp)
+                    margs = [] if meta.get("layout_only") else init_arg_values(meta, st.getLocalRegistrationId(), kp)
                 except Exception as e:
                     out.problems.append(("driver", {"op": idx, "error": "init args: %r" % (e,)}))
                     break
@@ -533,6 +533,8 @@ def run_impl(ctx, meta, ops, tag="s"):
                     f = bound_method(meta, rig.store, cls, mname)
                     scal = [chain_value(py, x) for x in mm["args"]]
                     loop = [tr.canon(v, mm["loop_affinity"]) for v in py[mm["loop"]]] if mm["loop"] else []
+                    if len(mm["params"]) != len(py):
+                        raise ValueError("%s.%s takes %r, the driver passes %r" % (cls, mname, mm["params"], sorted(py)))
                 except Exception as e:
                     out.problems.append(("driver", {"op": idx, "error": "args: %r" % (e,)}))
                     break
@@ -669,14 +671,19 @@ RECIP = ["4911", "4922", "15550001"]
 GROUPS = ["4911-1500000000@g.us", "g2@g.us"]
 
 
+# Values are drawn from a small pool per table, so that storing the SAME bytes again -- after a delete, after a
+# delete-all, after a replace with another value and back, across a reopen -- is frequent.
+SEEDS = [bytes(range(i, i + 64)).hex() for i in (0, 1, 2)]
+
+
 def gen_op(rng):
     k = rng.random()
-    seed = rng.randbytes(64).hex()
+    seed = rng.choice(SEEDS)
     r = rng.choice(RECIP)
     d = rng.choice([1, 1, 1, 1, 2])
     i = rng.randint(1, 5)
     if k < .22:
-        return {"op": "storeSession", "args": {"r": r, "d": d, "n": rng.randint(0, 50)}}
+        return {"op": "storeSession", "args": {"r": r, "d": d, "n": rng.choice([0, 1, 2, 3])}}
     if k < .28:
         return {"op": "deleteSession", "args": {"r": r, "d": d}}
     if k < .31:
@@ -695,7 +702,7 @@ def gen_op(rng):
         return {"op": "removeSignedPreKey", "args": {"i": rng.randint(0, 2)}}
     if k < .87:
         return {"op": "storeSenderKey", "args": {"g": rng.choice(GROUPS), "s": rng.choice(RECIP),
-                                                 "n": rng.randint(0, 9), "seed": seed}}
+                                                 "n": rng.choice([0, 1, 2]), "seed": seed}}
     if k < .92:
         return {"op": "open"}
     return rng.choice([
@@ -741,6 +748,45 @@ def systematic():
     ]
 
 
+def directed():
+    """Per table: store v; <every way the API has to remove it>; store the SAME v again; [reopen]; read -- and
+    store v; store w; store v; [reopen]; read.  (A store that remembers what it wrote outside the database may skip
+    the second write of v.)  Readers are checked in-process, everything is read back through a fresh store."""
+    O = {"op": "open"}
+    s, s2 = SEEDS[0], SEEDS[1]
+    out = []
+
+    def both(seq, readers):
+        out.append([O] + seq + readers)
+        out.append([O] + seq + [O] + readers)
+    ss = lambda n, r="4911", d=1: {"op": "storeSession", "args": {"r": r, "d": d, "n": n}}
+    ls = [{"op": "loadSession", "args": {"r": "4911", "d": 1}}]
+    for rm in ({"op": "deleteSession", "args": {"r": "4911", "d": 1}}, {"op": "deleteAllSessions", "args": {"r": "4911"}}):
+        both([ss(1), rm, ss(1)], ls)
+        both([ss(1), ss(2), rm, ss(2)], ls)
+    both([ss(1), ss(2), ss(1)], ls)
+    both([ss(0), ss(0)], ls)
+    si = lambda seed: {"op": "saveIdentity", "args": {"r": "4911", "seed": seed}}
+    ti = [{"op": "isTrustedIdentity", "args": {"r": "4911", "seed": s}}, {"op": "isTrustedIdentity", "args": {"r": "4911", "seed": s2}}]
+    both([si(s), si(s2), si(s)], ti)
+    both([si(s), si(s)], ti)
+    sp = lambda i, seed: {"op": "storePreKey", "args": {"i": i, "seed": seed}}
+    rp = {"op": "removePreKey", "args": {"i": 1}}
+    rd = [{"op": "containsPreKey", "args": {"i": 1}}, {"op": "loadUnsentPendingPreKeys", "args": {}}]
+    both([sp(1, s), rp, sp(1, s)], rd)
+    both([sp(1, s), {"op": "setAsSent", "args": {"ids": [1]}}, rp, sp(1, s)], rd)
+    both([sp(1, s), rp, sp(1, s2), rp, sp(1, s)], rd)
+    sg = lambda i, seed: {"op": "storeSignedPreKey", "args": {"i": i, "seed": seed}}
+    rg = {"op": "removeSignedPreKey", "args": {"i": 0}}
+    both([sg(0, s), rg, sg(0, s)], [])
+    both([sg(0, s), rg, sg(0, s2), rg, sg(0, s)], [])
+    sk = lambda n, seed: {"op": "storeSenderKey", "args": {"g": "g2@g.us", "s": "4911", "n": n, "seed": seed}}
+    lk = [{"op": "loadSenderKey", "args": {"g": "g2@g.us", "s": "4911"}}]
+    both([sk(1, s), sk(2, s2), sk(1, s)], lk)
+    both([sk(1, s), sk(1, s)], lk)
+    return out
+
+
 def gen_sequences(ctx):
     rng = ctx.rng
     seqs = []
@@ -751,6 +797,8 @@ def gen_sequences(ctx):
                 seqs.append(("corpus", json.load(open(os.path.join(cdir, fn)))["ops"]))
     for s in systematic():
         seqs.append(("systematic", s))
+    for s in directed():
+        seqs.append(("directed", s))
     n = 250 if ctx.tier == "quick" else 6000
     for _ in range(n):
         ln = rng.choice([3, 6, 10, 16])
@@ -799,12 +847,13 @@ def shrink(ctx, meta, ops, pred):
 
 
 def run(ctx):
-    meta = None
+    meta = measured_layout = None
     try:
         meta = tr.regenerate(scratch=ctx.scratch)
         ex = meta["extraction"]
     except tr.Unrecognised as e:
         ex = getattr(e, "extraction", None) or {"path": "none (%s)" % e}
+        measured_layout = getattr(e, "layout", None)
         ctx.ties["translator:c13_store"] = "broken: %s" % e
     # which extraction produced coq/Gen/C13Programs.v, and what the measurement said about the syntactic one
     ctx.coverage["translator_path"] = ex["path"]
@@ -827,11 +876,17 @@ def run(ctx):
     exe = ctx.build_model("C13") if meta else None
     model = modelrun.Model(exe) if exe else None
     if meta is None:
-        # the programs could not be extracted: still search for a failing input with the last known layout
-        try:
-            meta = json.load(open(os.path.join(os.path.dirname(tr.GEN_JSON), "C13Programs.last.json")))
-        except Exception:
-            meta = None
+        # the programs could not be extracted: ALWAYS still search for a failing history on the real store (directed
+        # histories first, then the random ones) against the plain-map oracle.  Layout (tables, facade, parameter
+        # order) = what was measured on this very tree, else the last known one.
+        meta = measured_layout
+        if meta is None:
+            try:
+                meta = json.load(open(os.path.join(os.path.dirname(tr.GEN_JSON), "C13Programs.last.json")))
+            except Exception:
+                meta = None
+        ctx.coverage["search_layout"] = ("measured on this tree" if measured_layout is not None else
+                                         "last successful extraction" if meta is not None else "none")
     else:
         with open(os.path.join(os.path.dirname(tr.GEN_JSON), "C13Programs.last.json"), "w") as f:
             json.dump(meta, f, default=lambda b: b.hex() if isinstance(b, bytes) else str(b))
@@ -839,6 +894,7 @@ def run(ctx):
     distinct = set()
     kinds = {}
     corr_bad = oracle_hits = 0
+    deferred = []
     if meta is not None:
         seqs = gen_sequences(ctx)
         for si, (origin, ops) in enumerate(seqs):
@@ -881,9 +937,15 @@ def run(ctx):
                         return compare_with_model(model, o) is not None
                     small = shrink(ctx, meta, ops, pred2)
                     o2 = run_impl(ctx, meta, small, "k")
-                    ctx.violation("correspondence:C13.trace",
-                                  {"ops": small, "detail": compare_with_model(model, o2) or diff, "origin": origin},
-                                  found_input=bool(o2.problems) or found)
+                    fi = bool(o2.problems) or found
+                    rec = ("correspondence:C13.trace",
+                           {"ops": small, "detail": compare_with_model(model, o2) or diff, "origin": origin}, fi)
+                    if fi:
+                        ctx.violation(rec[0], rec[1], found_input=True)
+                    else:
+                        # a model/implementation difference WITHOUT a failing history is reported after the search,
+                        # so that the first VIOLATION line carries a failing history when one exists
+                        deferred.append(rec)
             if si % 61 == 0 and out.traces:
                 ctx.add_sample({"origin": origin, "ops": [o["op"] for o in ops][:12],
                                 "boundaries": [len(t) for t in out.traces][:12]})
@@ -891,6 +953,8 @@ def run(ctx):
                 oracle_hits += 1
             if oracle_hits >= 3:
                 break
+        for name_, case_, fi_ in deferred:
+            ctx.violation(name_, case_, found_input=fi_)
         if model is not None:
             ok = model.call("run_store_ok", [])
             ctx.coverage["store_ok_computed_by_extracted_model"] = bool(ok)
@@ -933,8 +997,9 @@ def replay(ctx, data):
         return 1
     try:
         meta = tr.regenerate(scratch=ctx.scratch)
-    except tr.Unrecognised:
-        meta = json.load(open(os.path.join(os.path.dirname(tr.GEN_JSON), "C13Programs.last.json")))
+    except tr.Unrecognised as e:
+        meta = getattr(e, "layout", None) or \
+            json.load(open(os.path.join(os.path.dirname(tr.GEN_JSON), "C13Programs.last.json")))
     out = run_impl(ctx, meta, case["ops"], "r")
     for i, (o, t) in enumerate(zip(case["ops"], out.traces)):
         print("op %d %s: %d crash points" % (i, o["op"], len(t)))
